@@ -46,7 +46,7 @@ class _NoHandler(Exception):
 
 def scenarios(tier):
     out = []
-    kinds = ["mem"]
+    kinds = ["mem", "redis", "amqp"]
     gs = [0.0, 0.02] if tier == "quick" else [0.0, 0.02, 0.1]
     for kind in kinds:
         for g in gs:
@@ -59,7 +59,8 @@ def scenarios(tier):
 def horizon_of(scn) -> float:
     dur = ACTORS[scn["actor"]][0]
     d = min(dur, 0.06)
-    return 0.03 + d * (2 if scn["load"] == 3 else 1)
+    base = {"mem": 0.03, "redis": 0.45, "amqp": 0.05}[scn["kind"]]
+    return base + d * (2 if scn["load"] == 3 else 1)
 
 
 def execute(scn, k=None, deviations=None, slip=None):
